@@ -106,27 +106,25 @@ open ApiRanges
 /-! ## The two implementations of a range update at the API level
 
 `apiUpdateRanges m op R val slicePath` (Model/Api.lean): `slicePath = true` is
-`_update_values_pixel_ranges` (block by block), `false` expands the rows into a pixel list
-and runs `update_values_pix`.  Below: `slice` / `expand` for the two calls. -/
+`_update_values_pixel_ranges` (block by block; empty rows dropped on entry; for `add` over a
+non-zero sentinel a reset pass over all rows, then the additions), `false` expands the rows
+into a pixel list and runs `update_values_pix`; a record-field view takes the explicit path
+whatever `slicePath` says.  Below: `slice` / `expand` for the two calls. -/
 
-/-- rows with start ≤ end -/
+/-- rows with start ≤ end (a row with start > end is malformed input, out of scope) -/
 def RowsOrdered (R : List (Nat × Nat)) : Prop := ∀ ab ∈ R, ab.1 ≤ ab.2
 
 /-- there is no row at all, or some row holds a pixel -/
 def SomePixel (R : List (Nat × Nat)) : Prop := R = [] ∨ expand R ≠ []
 
-/-- a record-field view is not asked to make an unset pixel valid -/
-def ViewOk (m : MapObj) (R : List (Nat × Nat)) : Prop :=
-  (m.view.isSome && (expand R).any fun p => m.abs p == m.sent) = false
-
-/-- the operation has no pre-pass (everything but `add` over a non-zero sentinel), or no pixel
-    is addressed twice -/
-def PreOnce (m : MapObj) (op : String) (R : List (Nat × Nat)) : Prop :=
-  (cellOp m op).1 = none ∨ (expand R).Nodup
+/-- no EMPTY row lies beyond the sphere (the model's expansion path tests every row's end
+    against `npix`, the slice path only the rows it keeps) -/
+def EmptyInside (m : MapObj) (R : List (Nat × Nat)) : Prop :=
+  ∀ ab ∈ R, ab.1 = ab.2 → ab.2 ≤ m.npix
 
 /-- every coverage pixel the slice path allocates holds a pixel of some row -/
 def Tight (c : Cfg) (s : State Val) (R : List (Nat × Nat)) : Prop :=
-  ∀ k ∈ rangeNewCov c s R, touchedCov c R k = true
+  ∀ k ∈ rangeNewCov c s (liveRows R), touchedCov c R k = true
 
 /-- content equality of two states (the body of `C10.Same`, which lives downstream of this file) -/
 def SameState (c : Cfg) (vc : VCfg Val) (s₁ s₂ : State Val) : Prop :=
@@ -136,105 +134,106 @@ def SameState (c : Cfg) (vc : VCfg Val) (s₁ s₂ : State Val) : Prop :=
 
 variable {m : MapObj} {op : String} {R : List (Nat × Nat)} {val : Option Val}
 
-/-- **(1) error agreement, partial.**  For a well-formed map, rows with start ≤ end of which at
-    least one holds a pixel (or no rows), no forbidden write through a view, and the pre-pass
-    met once per pixel (or a non-float map): the slice path raises iff the expansion path does.
-    Each hypothesis is necessary (counterexamples below). -/
+theorem exists_beyond (hin : ¬ ∀ ab ∈ R, ab.2 ≤ m.npix) : ∃ ab ∈ R, ab.2 > m.npix := by
+  apply Classical.byContradiction
+  intro hc
+  apply hin
+  intro ab hab
+  have : ¬ (ab.2 > m.npix) := fun hx => hc ⟨ab, hab, hx⟩
+  omega
+
+/-- **(1) error agreement, partial.**  For a well-formed map and rows with start ≤ end of which
+    at least one holds a pixel (or no rows), no empty row beyond the sphere: the slice path
+    raises iff the expansion path does.  No condition on views, on repeated pixels or on the
+    operation.  Each hypothesis is necessary in the model (counterexamples below). -/
 theorem api_ranges_error_iff_partial (h : m.WF) (hord : RowsOrdered R) (hsome : SomePixel R)
-    (hview : ViewOk m R) (hpre : PreOnce m op R ∨ ∀ b, m.kind ≠ .plain (.flt b)) :
+    (hemp : EmptyInside m R) :
     (∃ e, apiUpdateRanges m op R val true = .error e) ↔
     (∃ e, apiUpdateRanges m op R val false = .error e) := by
-  cases hfe : frontErr m op val.isNone with
-  | some e => rw [ranges_front_err hfe, ranges_front_err hfe]
-  | none =>
-    by_cases hne : R = []
-    · subst hne
-      rw [ranges_nil hfe, ranges_nil hfe]
-    · by_cases hin : ∀ ab ∈ R, ab.2 ≤ m.npix
-      · have hR : ∀ ab ∈ R, ab.1 ≤ ab.2 ∧ ab.2 ≤ m.npix := fun ab hab => ⟨hord ab hab, hin ab hab⟩
-        have hex : expand R ≠ [] := hsome.resolve_left hne
-        rw [slice_regular hfe hne hR, expand_regular hfe hin hex hview]
-        have hfit := slice_expand_fit (op := op) (val := val) h hR
-          (by rcases hpre with (h1 | h1) | h1
-              · exact Or.inl h1
-              · exact Or.inr (Or.inl h1)
-              · exact Or.inr (Or.inr h1))
-        rw [rangesOutcome_eq, rangesOutcome_eq, hfit]
-        cases rangesErr m op R val (floatCellsFit m.kind (expandSt m op R val).sp) with
-        | some e => exact ⟨fun _ => ⟨e, rfl⟩, fun _ => ⟨e, rfl⟩⟩
-        | none => constructor <;> rintro ⟨_, he⟩ <;> cases he
-      · have hbad : ∃ ab ∈ R, ab.2 > m.npix := by
-          apply Classical.byContradiction
-          intro hc
-          apply hin
-          intro ab hab
-          have : ¬ (ab.2 > m.npix) := fun hx => hc ⟨ab, hab, hx⟩
-          omega
-        obtain ⟨e', _, he'⟩ := expand_beyond (val := val) hfe hbad
-        have hbad' : ∃ ab ∈ R, ab.2 > m.npix ∨ ab.1 > ab.2 :=
-          hbad.imp fun ab hab => ⟨hab.1, Or.inl hab.2⟩
-        rw [slice_irregular hfe hbad', he']
-        exact ⟨fun _ => raise3 _ _ _, fun _ => raise3 _ _ _⟩
+  rcases view_cases m with hv | hv
+  · cases hfe : frontErr m op val.isNone with
+    | some e => rw [ranges_front_err hfe, ranges_front_err hfe]
+    | none =>
+      by_cases hne : R = []
+      · subst hne
+        rw [ranges_nil hfe, ranges_nil hfe]
+      · by_cases hin : ∀ ab ∈ R, ab.2 ≤ m.npix
+        · have hR : ∀ ab ∈ R, ab.1 ≤ ab.2 ∧ ab.2 ≤ m.npix := fun ab hab => ⟨hord ab hab, hin ab hab⟩
+          have hex : expand R ≠ [] := hsome.resolve_left hne
+          have hview : (m.view.isSome && (expand R).any fun p => m.abs p == m.sent) = false := by
+            rw [hv]; rfl
+          rw [slice_regular hv hfe hne (live_of_all hR), expand_regular hfe hin hex hview,
+            rangesOutcome_eq, rangesOutcome_eq, slice_expand_fit h hR]
+          cases rangesErr m op R val (floatCellsFit m.kind (expandSt m op R val).sp) with
+          | some e => exact ⟨fun _ => ⟨e, rfl⟩, fun _ => ⟨e, rfl⟩⟩
+          | none => constructor <;> rintro ⟨_, he⟩ <;> cases he
+        · obtain ⟨ab, hab, hgt⟩ := exists_beyond hin
+          obtain ⟨e', _, he'⟩ := expand_beyond (val := val) hfe ⟨ab, hab, hgt⟩
+          have hlive : ab ∈ liveRows R :=
+            mem_liveRows.2 ⟨hab, fun he => by have := hemp ab hab he; omega⟩
+          rw [slice_irregular hv hfe ⟨ab, hlive, Or.inl hgt⟩, he']
+          exact ⟨fun _ => raise3 _ _ _, fun _ => raise3 _ _ _⟩
+  · rw [apiUpdateRanges_view m op R val hv]
 
-/-- **(1') error kinds, partial.**  When both paths raise (rows ordered, no forbidden write
-    through a view) they raise the same error, except for a row beyond the sphere: there the
-    slice path answers IndexError while the expansion path first runs `update_values_pix` on
-    pixel 0 and may answer with what that raises. -/
-theorem api_ranges_error_kind_partial (hord : RowsOrdered R) (hview : ViewOk m R) {e₁ e₂ : Err}
-    (h1 : apiUpdateRanges m op R val true = .error e₁)
+/-- **(1') error kinds, partial.**  When both paths raise (rows ordered, no empty row beyond the
+    sphere) they raise the same error, except for a row beyond the sphere on a float map: there
+    the slice path answers IndexError while the expansion path first runs `update_values_pix`
+    on pixel 0, whose `inexact` (a model-level marker, not an exception of the library) may
+    come first. -/
+theorem api_ranges_error_kind_partial (hord : RowsOrdered R) (hemp : EmptyInside m R)
+    {e₁ e₂ : Err} (h1 : apiUpdateRanges m op R val true = .error e₁)
     (h2 : apiUpdateRanges m op R val false = .error e₂) :
-    e₁ = e₂ ∨ ((∃ ab ∈ R, ab.2 > m.npix) ∧ e₁ = .index ∧ (e₂ = .runtime ∨ e₂ = .inexact)) := by
-  cases hfe : frontErr m op val.isNone with
-  | some e =>
-    rw [ranges_front_err hfe] at h1 h2
-    cases h1; cases h2
-    exact Or.inl rfl
-  | none =>
-    by_cases hne : R = []
-    · subst hne
-      rw [ranges_nil hfe] at h1
-      cases h1
-    · by_cases hin : ∀ ab ∈ R, ab.2 ≤ m.npix
-      · have hR : ∀ ab ∈ R, ab.1 ≤ ab.2 ∧ ab.2 ≤ m.npix := fun ab hab => ⟨hord ab hab, hin ab hab⟩
-        by_cases hex : expand R = []
-        · rw [expand_empty hfe hin hex] at h2
-          cases h2
-        · left
-          rw [slice_regular hfe hne hR] at h1
-          rw [expand_regular hfe hin hex hview] at h2
-          exact rangesErr_kind (rangesOutcome_error h1) (rangesOutcome_error h2)
-      · have hbad : ∃ ab ∈ R, ab.2 > m.npix := by
-          apply Classical.byContradiction
-          intro hc
-          apply hin
-          intro ab hab
-          have : ¬ (ab.2 > m.npix) := fun hx => hc ⟨ab, hab, hx⟩
-          omega
-        obtain ⟨e', he'1, he'⟩ := expand_beyond (val := val) hfe hbad
-        have hbad' : ∃ ab ∈ R, ab.2 > m.npix ∨ ab.1 > ab.2 :=
-          hbad.imp fun ab hab => ⟨hab.1, Or.inl hab.2⟩
-        rw [slice_irregular hfe hbad'] at h1
-        rw [he'] at h2
-        split at h1
-        · rw [if_pos ‹_›] at h2
-          cases h1; cases h2; exact Or.inl rfl
-        · rw [if_neg ‹_›] at h2
+    e₁ = e₂ ∨ ((∃ ab ∈ R, ab.2 > m.npix) ∧ e₁ = .index ∧ e₂ = .inexact) := by
+  rcases view_cases m with hv | hv
+  · cases hfe : frontErr m op val.isNone with
+    | some e =>
+      rw [ranges_front_err hfe] at h1 h2
+      cases h1; cases h2
+      exact Or.inl rfl
+    | none =>
+      by_cases hne : R = []
+      · subst hne
+        rw [ranges_nil hfe] at h1
+        cases h1
+      · by_cases hin : ∀ ab ∈ R, ab.2 ≤ m.npix
+        · have hR : ∀ ab ∈ R, ab.1 ≤ ab.2 ∧ ab.2 ≤ m.npix := fun ab hab => ⟨hord ab hab, hin ab hab⟩
+          by_cases hex : expand R = []
+          · rw [expand_empty hfe hin hex] at h2
+            cases h2
+          · left
+            have hview : (m.view.isSome && (expand R).any fun p => m.abs p == m.sent) = false := by
+              rw [hv]; rfl
+            rw [slice_regular hv hfe hne (live_of_all hR)] at h1
+            rw [expand_regular hfe hin hex hview] at h2
+            exact rangesErr_kind (rangesOutcome_error h1) (rangesOutcome_error h2)
+        · obtain ⟨ab, hab, hgt⟩ := exists_beyond hin
+          obtain ⟨e', he'1, he'⟩ := expand_beyond (val := val) hfe ⟨ab, hab, hgt⟩
+          have hlive : ab ∈ liveRows R :=
+            mem_liveRows.2 ⟨hab, fun he => by have := hemp ab hab he; omega⟩
+          rw [slice_irregular hv hfe ⟨ab, hlive, Or.inl hgt⟩] at h1
+          rw [he'] at h2
           split at h1
           · rw [if_pos ‹_›] at h2
             cases h1; cases h2; exact Or.inl rfl
           · rw [if_neg ‹_›] at h2
-            cases h1; cases h2
-            rcases he'1 with rfl | rfl | rfl
-            · exact Or.inl rfl
-            · exact Or.inr ⟨hbad, rfl, Or.inl rfl⟩
-            · exact Or.inr ⟨hbad, rfl, Or.inr rfl⟩
+            split at h1
+            · rw [if_pos ‹_›] at h2
+              cases h1; cases h2; exact Or.inl rfl
+            · rw [if_neg ‹_›] at h2
+              cases h1; cases h2
+              rcases he'1 with rfl | ⟨_, hvs⟩ | rfl
+              · exact Or.inl rfl
+              · rw [hv] at hvs; cases hvs
+              · exact Or.inr ⟨⟨ab, hab, hgt⟩, rfl, rfl⟩
+  · rw [apiUpdateRanges_view m op R val hv, h2] at h1
+    cases h1
+    exact Or.inl rfl
 
-/-- **(2) the results agree, partial.**  When both paths succeed on a well-formed map and the
-    pre-pass is met once per pixel: same configuration, kind, sentinel, cache (reset) and view
-    flag, both results well formed, the same value at every pixel, and the slice path's
-    coverage contains the expansion path's.  (Coverage EQUALITY is false in general, see
-    `api_ranges_same_partial` and the counterexample below.) -/
-theorem api_ranges_agree_partial {m₁ m₂ : MapObj} (h : m.WF) (hpre : PreOnce m op R)
+/-- **(2) the results agree.**  When both paths succeed on a well-formed map — ANY operation,
+    overlapping / touching / repeated rows, any value, views included — : same configuration,
+    kind, sentinel, cache (reset) and view flag, both results well formed, the same value at
+    every pixel, and the slice path's coverage contains the expansion path's (the needed one). -/
+theorem api_ranges_agree {m₁ m₂ : MapObj} (h : m.WF)
     (h1 : apiUpdateRanges m op R val true = .ok m₁)
     (h2 : apiUpdateRanges m op R val false = .ok m₂) :
     m₁.covord = m₂.covord ∧ m₁.spord = m₂.spord ∧ m₁.kind = m₂.kind ∧ m₁.sent = m₂.sent ∧
@@ -242,75 +241,110 @@ theorem api_ranges_agree_partial {m₁ m₂ : MapObj} (h : m.WF) (hpre : PreOnce
     (∀ p, p < m.npix → m₁.abs p = m₂.abs p) ∧
     (∀ k, k < m.c.ncov → covered m.c m₂.st k = true → covered m.c m₁.st k = true) := by
   have w1 := WF.apiUpdateRanges h h1
-  have w2 := WF.apiUpdateRanges h h2
-  obtain ⟨_, hR, rfl⟩ := slice_ok h1
-  obtain ⟨_, hin, _, rfl⟩ := expand_ok h2
-  refine ⟨rfl, rfl, rfl, rfl, rfl, rfl, w1, w2, fun p hp => slice_expand_abs h hR hpre p hp,
-    fun k hk hc => ?_⟩
-  show covered m.c (sliceSt m op R val) k = true
-  have hc' : covered m.c (expandSt m op R val) k = true := hc
-  rw [expandSt_covered h hin k hk] at hc'
-  rw [sliceSt_covered h hR k hk]
-  cases hck : covered m.c m.st k with
-  | true => rfl
-  | false =>
-    rw [hck] at hc'
-    simp only [Bool.false_or, Bool.and_eq_true] at hc' ⊢
-    exact ⟨hc'.1, decide_eq_true (touched_sub_rangeCov m.c m.st R hR k hk hck hc'.2)⟩
+  rcases view_cases m with hv | hv
+  · have w2 := WF.apiUpdateRanges h h2
+    obtain ⟨_, hR', rfl⟩ := slice_ok hv h1
+    obtain ⟨_, hin, _, rfl⟩ := expand_ok h2
+    have hR : ∀ ab ∈ R, ab.1 ≤ ab.2 ∧ ab.2 ≤ m.npix := by
+      intro ab hab
+      refine ⟨?_, hin ab hab⟩
+      by_cases he : ab.1 = ab.2
+      · omega
+      · exact (hR' ab (mem_liveRows.2 ⟨hab, he⟩)).1
+    refine ⟨rfl, rfl, rfl, rfl, rfl, rfl, w1, w2, fun p hp => slice_expand_abs h hR p hp,
+      fun k hk hc => ?_⟩
+    show covered m.c (sliceSt m op R val) k = true
+    have hc' : covered m.c (expandSt m op R val) k = true := hc
+    rw [expandSt_covered h hin k hk] at hc'
+    rw [(sliceSt_spec h hR').2.1 k hk]
+    cases hck : covered m.c m.st k with
+    | true => rfl
+    | false =>
+      rw [hck] at hc'
+      simp only [Bool.false_or, Bool.and_eq_true] at hc' ⊢
+      refine ⟨hc'.1, decide_eq_true ?_⟩
+      apply touched_sub_rangeCov m.c m.st (liveRows R) hR' k hk hck
+      rw [touchedCov_liveRows]
+      exact hc'.2
+  · rw [apiUpdateRanges_view m op R val hv, h2] at h1
+    cases h1
+    exact ⟨rfl, rfl, rfl, rfl, rfl, rfl, w1, w1, fun _ _ => rfl, fun _ _ hc => hc⟩
 
-/-- **(2') content equality, partial.**  If moreover the update is a clear, or every coverage
-    pixel the slice path allocates holds a pixel of some row (`Tight`), the two results are
-    content-equal states (`C10.Same`). -/
-theorem api_ranges_same_partial {m₁ m₂ : MapObj} (h : m.WF) (hpre : PreOnce m op R)
-    (ht : val = none ∨ Tight m.c m.st R)
+/-- **(2') content equality, partial.**  If moreover the update is a clear, or the map is a view,
+    or every coverage pixel the slice path allocates holds a pixel of some row (`Tight`), the
+    two results are content-equal states (`C10.Same`).  Without it the slice path may cover
+    MORE than needed (a row ending on a block edge), which the property allows. -/
+theorem api_ranges_same_partial {m₁ m₂ : MapObj} (h : m.WF)
+    (ht : val = none ∨ m.view.isSome = true ∨ Tight m.c m.st R)
     (h1 : apiUpdateRanges m op R val true = .ok m₁)
     (h2 : apiUpdateRanges m op R val false = .ok m₂) :
     SameState m.c m.vc m₁.st m₂.st := by
-  obtain ⟨_, _, _, _, _, _, w1, w2, hab, hcov⟩ := api_ranges_agree_partial h hpre h1 h2
-  obtain ⟨_, hR, rfl⟩ := slice_ok h1
-  obtain ⟨_, hin, _, rfl⟩ := expand_ok h2
-  refine ⟨w1.2, w2.2, hab, fun k hk => ?_⟩
-  show covered m.c (sliceSt m op R val) k = covered m.c (expandSt m op R val) k
-  rw [sliceSt_covered h hR k hk, expandSt_covered h hin k hk]
-  rcases ht with rfl | ht
-  · rfl
-  · cases hck : covered m.c m.st k with
-    | true => rfl
-    | false =>
-      congr 2
-      by_cases hm : k ∈ rangeNewCov m.c m.st R
-      · rw [ht k hm]; exact decide_eq_true hm
-      · rw [decide_eq_false hm]
-        symm
-        rw [Bool.eq_false_iff]
-        intro htc
-        exact hm (touched_sub_rangeCov m.c m.st R hR k hk hck htc)
+  obtain ⟨_, _, _, _, _, _, w1, w2, hab, hcov⟩ := api_ranges_agree h h1 h2
+  rcases view_cases m with hv | hv
+  · obtain ⟨_, hR', rfl⟩ := slice_ok hv h1
+    obtain ⟨_, hin, _, rfl⟩ := expand_ok h2
+    refine ⟨w1.2, w2.2, hab, fun k hk => ?_⟩
+    show covered m.c (sliceSt m op R val) k = covered m.c (expandSt m op R val) k
+    rw [(sliceSt_spec h hR').2.1 k hk, expandSt_covered h hin k hk]
+    rcases ht with rfl | hvs | ht
+    · rfl
+    · rw [hv] at hvs; cases hvs
+    · cases hck : covered m.c m.st k with
+      | true => rfl
+      | false =>
+        congr 2
+        by_cases hm : k ∈ rangeNewCov m.c m.st (liveRows R)
+        · rw [ht k hm]; exact decide_eq_true hm
+        · rw [decide_eq_false hm]
+          symm
+          rw [Bool.eq_false_iff]
+          intro htc
+          apply hm
+          apply touched_sub_rangeCov m.c m.st (liveRows R) hR' k hk hck
+          rw [touchedCov_liveRows]
+          exact htc
+  · obtain ⟨g1, g2, g3, g4, _⟩ := WFApi.apiUpdateRanges_ok h2
+    have hc : m₂.c = m.c := by unfold MapObj.c; rw [g1, g2]
+    have hvc : m₂.vc = m.vc := by unfold MapObj.vc; rw [g3, g4]
+    have hi := w2.2
+    rw [hc, hvc] at hi
+    rw [apiUpdateRanges_view m op R val hv, h2] at h1
+    cases h1
+    exact ⟨hi, hi, fun _ _ => rfl, fun _ _ => rfl⟩
 
-/-- a sufficient arithmetic condition for `Tight`: every row holds a pixel and does not end on
-    a block edge, except at the end of the sphere -/
+/-- a sufficient arithmetic condition for `Tight`: every non-empty row ends inside the sphere,
+    off a block edge — or exactly at the end of the sphere -/
 theorem tight_of_offedge (c : Cfg) (s : State Val) (R : List (Nat × Nat))
-    (hR : ∀ ab ∈ R, ab.1 < ab.2 ∧ ab.2 ≤ c.npix ∧ (ab.2 % c.nfine ≠ 0 ∨ ab.2 = c.npix)) :
-    Tight c s R := touched_of_offedge c s R hR
+    (hR : ∀ ab ∈ R, ab.1 = ab.2 ∨
+      (ab.1 < ab.2 ∧ ab.2 ≤ c.npix ∧ (ab.2 % c.nfine ≠ 0 ∨ ab.2 = c.npix))) :
+    Tight c s R := by
+  intro k hk
+  rw [← touchedCov_liveRows]
+  refine touched_of_offedge c s (liveRows R) (fun ab hab => ?_) k hk
+  obtain ⟨h1, h2⟩ := mem_liveRows.1 hab
+  rcases hR ab h1 with he | he
+  · exact absurd he h2
+  · exact he
 
-/-- **(3a) what the slice path computes.**  On success every pixel holds the cell effect
-    `cellEffect pre f w` applied once per row containing it, in row order (nothing under a
-    clear of an uncovered pixel); the coverage grows by EVERY coverage pixel between the one
-    holding a row's start and the one holding its exclusive end (`rangeNewCov`) — also for
-    empty rows and for rows ending on a block edge; none for a clear. -/
-theorem api_ranges_slice_spec {m₁ : MapObj} (h : m.WF)
+/-- **(3a) what the slice path computes.**  On success (map not a view) every pixel holds: the
+    reset of `add` over a non-zero sentinel (`pre`, identity otherwise) once per row containing
+    it, then the operation with the value once per row containing it — overlapping rows apply
+    `add` twice — (nothing under a clear of an uncovered pixel); the coverage grows by every
+    coverage pixel between the one holding a non-empty row's start and the one holding its
+    exclusive end (`rangeNewCov` of the non-empty rows — one more than needed for a row ending
+    on a block edge); none for a clear, none for empty rows. -/
+theorem api_ranges_slice_spec {m₁ : MapObj} (h : m.WF) (hv : m.view = none)
     (h1 : apiUpdateRanges m op R val true = .ok m₁) :
     (∀ p, p < m.npix → m₁.abs p =
       if (val.isNone && !covered m.c m.st (p >>> m.c.shift)) = true then m.abs p
       else R.foldl (fun x ab => if ab.1 ≤ p ∧ p < ab.2
-              then cellEffect (cellOp m op).1 (cellOp m op).2 (rangesW m val) x else x) (m.abs p)) ∧
+              then (cellOp m op).2 x (rangesW m val) else x)
+            (R.foldl (fun x ab => if ab.1 ≤ p ∧ p < ab.2
+              then ((cellOp m op).1.getD id) x else x) (m.abs p))) ∧
     (∀ k, k < m.c.ncov → covered m.c m₁.st k =
-      (covered m.c m.st k || (!val.isNone && decide (k ∈ rangeNewCov m.c m.st R)))) := by
-  obtain ⟨_, hR, rfl⟩ := slice_ok h1
-  refine ⟨fun p hp => ?_, fun k hk => sliceSt_covered h hR k hk⟩
-  show abs m.c m.vc (sliceSt m op R val) p = _
-  rw [sliceSt_abs h hR p hp]
-  unfold denseUpdate
-  rw [denseFold_expand _ R (fun ab hab => (hR ab hab).1)]
+      (covered m.c m.st k || (!val.isNone && decide (k ∈ rangeNewCov m.c m.st (liveRows R))))) := by
+  obtain ⟨_, hR', rfl⟩ := slice_ok hv h1
+  exact ⟨fun p hp => (sliceSt_spec h hR').2.2 p hp, fun k hk => (sliceSt_spec h hR').2.1 k hk⟩
 
 /-- **(3b) what the expansion path computes.**  On success every pixel holds the dense fold
     of the staged operation (pre-pass over all addressed pixels, then the operation once per
@@ -328,46 +362,45 @@ theorem api_ranges_expand_spec {m₂ : MapObj} (h : m.WF)
   obtain ⟨_, hin, _, rfl⟩ := expand_ok h2
   exact ⟨fun p hp => expandSt_abs h hin p hp, fun k hk => expandSt_covered h hin k hk⟩
 
-/-- (3b, row form) with the pre-pass met once per pixel the expansion path computes the same
-    row-by-row fold as the slice path -/
-theorem api_ranges_expand_rows_partial {m₂ : MapObj} (h : m.WF) (hord : RowsOrdered R)
-    (hpre : PreOnce m op R) (h2 : apiUpdateRanges m op R val false = .ok m₂) (p : Nat)
-    (hp : p < m.npix) :
+/-- (3b, row form) for rows with start ≤ end the expansion path computes the same row-by-row
+    fold as the slice path -/
+theorem api_ranges_expand_rows {m₂ : MapObj} (h : m.WF) (hord : RowsOrdered R)
+    (h2 : apiUpdateRanges m op R val false = .ok m₂) (p : Nat) (hp : p < m.npix) :
     m₂.abs p =
       if (val.isNone && !covered m.c m.st (p >>> m.c.shift)) = true then m.abs p
       else R.foldl (fun x ab => if ab.1 ≤ p ∧ p < ab.2
-              then cellEffect (cellOp m op).1 (cellOp m op).2 (rangesW m val) x else x) (m.abs p) := by
+              then (cellOp m op).2 x (rangesW m val) else x)
+            (R.foldl (fun x ab => if ab.1 ≤ p ∧ p < ab.2
+              then ((cellOp m op).1.getD id) x else x) (m.abs p)) := by
   obtain ⟨_, hin, _, rfl⟩ := expand_ok h2
-  have hR : ∀ ab ∈ R, ab.1 ≤ ab.2 ∧ ab.2 ≤ m.npix := fun ab hab => ⟨hord ab hab, hin ab hab⟩
-  show abs m.c m.vc (expandSt m op R val) p = _
-  rw [← slice_expand_abs h hR hpre p hp, sliceSt_abs h hR p hp]
-  unfold denseUpdate
-  rw [denseFold_expand _ R hord]
+  exact expandSt_abs_rows h (fun ab hab => ⟨hord ab hab, hin ab hab⟩) p hp
 
-/-- **the two paths are indistinguishable, partial** (the headline, combining (1), (1'), (2')):
-    on a well-formed map, for rows with start ≤ end of which one holds a pixel (or no rows), no
-    forbidden write through a view, the pre-pass met once per pixel, and a clear or rows that
-    make the slice path allocate nothing extra — either both paths raise (the same error, up to
-    the row-beyond-the-sphere case) or both succeed with the same fields and content-equal
-    states. -/
+/-- **the two paths are indistinguishable, partial** (the headline, combining (1), (1'), (2),
+    (2')): on a well-formed map, for rows with start ≤ end of which one holds a pixel (or no
+    rows), no empty row beyond the sphere — either both paths raise (the same error, up to the
+    row-beyond-the-sphere case) or both succeed with the same fields, the same value at every
+    pixel and a coverage that contains the needed one; content-equal states when the slice
+    path allocates nothing extra. -/
 theorem api_ranges_indistinguishable_partial (h : m.WF) (hord : RowsOrdered R)
-    (hsome : SomePixel R) (hview : ViewOk m R) (hpre : PreOnce m op R)
-    (ht : val = none ∨ Tight m.c m.st R) :
+    (hsome : SomePixel R) (hemp : EmptyInside m R) :
     match apiUpdateRanges m op R val true, apiUpdateRanges m op R val false with
     | .ok m₁, .ok m₂ =>
         m₁.covord = m₂.covord ∧ m₁.spord = m₂.spord ∧ m₁.kind = m₂.kind ∧ m₁.sent = m₂.sent ∧
         m₁.cache = m₂.cache ∧ m₁.view = m₂.view ∧ m₁.WF ∧ m₂.WF ∧
-        SameState m.c m.vc m₁.st m₂.st
+        (∀ p, p < m.npix → m₁.abs p = m₂.abs p) ∧
+        (∀ k, k < m.c.ncov → covered m.c m₂.st k = true → covered m.c m₁.st k = true) ∧
+        ((val = none ∨ m.view.isSome = true ∨ Tight m.c m.st R) → SameState m.c m.vc m₁.st m₂.st)
     | .error e₁, .error e₂ =>
-        e₁ = e₂ ∨ ((∃ ab ∈ R, ab.2 > m.npix) ∧ e₁ = .index ∧ (e₂ = .runtime ∨ e₂ = .inexact))
+        e₁ = e₂ ∨ ((∃ ab ∈ R, ab.2 > m.npix) ∧ e₁ = .index ∧ e₂ = .inexact)
     | _, _ => False := by
-  have hiff := api_ranges_error_iff_partial (op := op) (val := val) h hord hsome hview (Or.inl hpre)
+  have hiff := api_ranges_error_iff_partial (op := op) (val := val) h hord hsome hemp
   cases h1 : apiUpdateRanges m op R val true with
   | ok m₁ =>
     cases h2 : apiUpdateRanges m op R val false with
     | ok m₂ =>
-      obtain ⟨a1, a2, a3, a4, a5, a6, a7, a8, _, _⟩ := api_ranges_agree_partial h hpre h1 h2
-      exact ⟨a1, a2, a3, a4, a5, a6, a7, a8, api_ranges_same_partial h hpre ht h1 h2⟩
+      obtain ⟨a1, a2, a3, a4, a5, a6, a7, a8, a9, a10⟩ := api_ranges_agree h h1 h2
+      exact ⟨a1, a2, a3, a4, a5, a6, a7, a8, a9, a10,
+        fun ht => api_ranges_same_partial h ht h1 h2⟩
     | error e₂ =>
       obtain ⟨e, he⟩ := hiff.2 ⟨e₂, h2⟩
       rw [h1] at he
@@ -378,7 +411,7 @@ theorem api_ranges_indistinguishable_partial (h : m.WF) (hord : RowsOrdered R)
       obtain ⟨e, he⟩ := hiff.1 ⟨e₁, h1⟩
       rw [h2] at he
       cases he
-    | error e₂ => exact api_ranges_error_kind_partial hord hview h1 h2
+    | error e₂ => exact api_ranges_error_kind_partial hord hemp h1 h2
 
 /-! ## `update_values_pix` itself against the dense specification -/
 
@@ -513,16 +546,14 @@ theorem upd_error_no_new_map (lines : List String) (a : Args)
   | none => rfl
   | some m => rw [hg] at hx; cases hx
 
-/-! ## Non-vacuity and counterexamples (API level) -/
+/-! ## Non-vacuity, regression examples and counterexamples (API level) -/
 
 open WFApi (okAnd)
 
 instance (R : List (Nat × Nat)) : Decidable (RowsOrdered R) := by unfold RowsOrdered; infer_instance
 instance (R : List (Nat × Nat)) : Decidable (SomePixel R) := by unfold SomePixel; infer_instance
-instance (m : MapObj) (R : List (Nat × Nat)) : Decidable (ViewOk m R) := by unfold ViewOk; infer_instance
-instance (m : MapObj) (op : String) (R : List (Nat × Nat)) : Decidable (PreOnce m op R) :=
-  decidable_of_iff ((cellOp m op).1.isNone = true ∨ (expand R).Nodup) (by
-    unfold PreOnce; rw [Option.isNone_iff_eq_none])
+instance (m : MapObj) (R : List (Nat × Nat)) : Decidable (EmptyInside m R) := by
+  unfold EmptyInside; infer_instance
 instance (c : Cfg) (s : State Val) (R : List (Nat × Nat)) : Decidable (Tight c s R) := by
   unfold Tight; infer_instance
 instance (c : Cfg) (vc : VCfg Val) (s₁ s₂ : State Val) : Decidable (SameState c vc s₁ s₂) := by
@@ -546,26 +577,38 @@ def exMap0 : Except Err MapObj := do
   let m ← apiMakeEmpty 0 1 (.plain (.int 64 true)) (some (.num 0 0)) []
   apiUpdate m "replace" [1, 9] (some [.num 3 0, .num 4 0]) false
 
-/-- all hypotheses of (1), (2), (2') hold and both paths succeed with content-equal results:
-    shuffled rows, one ending at `npix`, one crossing a block edge (`replace`) -/
+/-- all hypotheses of (1), (2') hold and both paths succeed with content-equal results:
+    shuffled rows, one ending at `npix`, one crossing a block edge, an empty row, the empty row
+    `[npix, npix)` (`replace`) -/
 example : okAnd exMap (fun m =>
-    let R := [(44, 48), (2, 6)]
-    decide m.WF && decide (RowsOrdered R) && decide (SomePixel R) && decide (ViewOk m R) &&
-    decide (PreOnce m "replace" R) && decide (Tight m.c m.st R) &&
+    let R := [(44, 48), (2, 6), (21, 21), (48, 48)]
+    decide m.WF && decide (RowsOrdered R) && decide (SomePixel R) && decide (EmptyInside m R) &&
+    decide (Tight m.c m.st R) &&
     okAnd (apiUpdateRanges m "replace" R (some (.num 7 0)) true) fun m₁ =>
     okAnd (apiUpdateRanges m "replace" R (some (.num 7 0)) false) fun m₂ =>
-      decide (SameState m.c m.vc m₁.st m₂.st) && m₁.abs 5 == .num 7 0 && m₁.abs 1 == .num 3 0) = true := by
+      decide (SameState m.c m.vc m₁.st m₂.st) && m₁.abs 5 == .num 7 0 && m₁.abs 1 == .num 3 0 &&
+      !covered m.c m₁.st 5) = true := by
   decide +kernel
 
 /-- overlapping and touching rows with `add` over a zero sentinel (no pre-pass): pixel 4 and 5
     receive the value twice on both paths -/
 example : okAnd exMap0 (fun m =>
     let R := [(0, 6), (4, 9), (9, 11)]
-    decide m.WF && decide (PreOnce m "add" R) && decide (Tight m.c m.st R) &&
+    decide m.WF && decide (Tight m.c m.st R) &&
     okAnd (apiUpdateRanges m "add" R (some (.num 5 0)) true) fun m₁ =>
     okAnd (apiUpdateRanges m "add" R (some (.num 5 0)) false) fun m₂ =>
       decide (SameState m.c m.vc m₁.st m₂.st) && m₁.abs 4 == .num 10 0 && m₁.abs 1 == .num 8 0 &&
       m₁.abs 9 == .num 9 0 && m₂.abs 5 == .num 10 0) = true := by
+  decide +kernel
+
+/-- the same rows with `add` over the default (non-zero) sentinel: unset pixels are reset once,
+    pixel 4 ends at 10, pixel 1 at 3 + 5, on both paths -/
+example : okAnd exMap (fun m =>
+    let R := [(0, 6), (4, 9), (9, 11)]
+    okAnd (apiUpdateRanges m "add" R (some (.num 5 0)) true) fun m₁ =>
+    okAnd (apiUpdateRanges m "add" R (some (.num 5 0)) false) fun m₂ =>
+      decide (SameState m.c m.vc m₁.st m₂.st) && m₁.abs 4 == .num 10 0 && m₁.abs 1 == .num 8 0 &&
+      m₁.abs 9 == .num 9 0 && m₁.abs 0 == .num 5 0) = true := by
   decide +kernel
 
 /-- a clear (`None`) over rows reaching into uncovered coverage pixels: nothing is allocated,
@@ -587,37 +630,50 @@ example : okAnd exMap (fun m =>
     errIs .value (apiUpdateRanges m "add" [(0, 2)] none false)) = true := by
   decide +kernel
 
-/-- **counterexample to coverage equality (hypothesis `Tight` of (2'))**: a row ending on a
-    block edge, `[0, 4)` with 4 cells per coverage pixel.  Both paths succeed with the same
-    values, but the slice path also allocates coverage pixel 1 (no pixel of the row lies in it);
-    the expansion path allocates coverage pixel 0 only.  Same for an empty row `[5, 5)`. -/
+/-- **coverage is a superset, not equal (hypothesis `Tight` of (2'))**: a row ending on a block
+    edge, `[12, 16)` with 4 cells per coverage pixel.  Both paths succeed with the same values,
+    but the slice path also allocates coverage pixel 4 (no pixel of the row lies in it); the
+    expansion path allocates coverage pixel 3 only.  (Allowed by the property.)
+    An empty row `[21, 21)` allocates nothing on either path (regression: the range routine
+    used to allocate coverage pixel 5 for it). -/
 example : okAnd exMap (fun m =>
     okAnd (apiUpdateRanges m "replace" [(12, 16)] (some (.num 7 0)) true) fun m₁ =>
     okAnd (apiUpdateRanges m "replace" [(12, 16)] (some (.num 7 0)) false) fun m₂ =>
       !decide (Tight m.c m.st [(12, 16)]) && !decide (SameState m.c m.vc m₁.st m₂.st) &&
       covered m.c m₁.st 3 && covered m.c m₁.st 4 && covered m.c m₂.st 3 && !covered m.c m₂.st 4) = true ∧
     okAnd exMap (fun m =>
-    okAnd (apiUpdateRanges m "replace" [(21, 21)] (some (.num 7 0)) true) fun m₁ =>
-    okAnd (apiUpdateRanges m "replace" [(21, 21)] (some (.num 7 0)) false) fun m₂ =>
-      covered m.c m₁.st 5 && !covered m.c m₂.st 5) = true := by
+    okAnd (apiUpdateRanges m "replace" [(21, 21), (0, 2)] (some (.num 7 0)) true) fun m₁ =>
+    okAnd (apiUpdateRanges m "replace" [(21, 21), (0, 2)] (some (.num 7 0)) false) fun m₂ =>
+      decide (SameState m.c m.vc m₁.st m₂.st) && !covered m.c m₁.st 5 && !covered m.c m₂.st 5) = true := by
   decide +kernel
 
-/-- **counterexample to (1) without `RowsOrdered`**: a row with start > end, `[5, 3)`: the slice
-    path raises IndexError, the expansion path ignores the row and succeeds -/
+/-- **counterexample to (1) without `RowsOrdered`** (malformed input, model level): a row with
+    start > end, `[5, 3)`: the slice path raises IndexError, the expansion path ignores the
+    row and succeeds -/
 example : okAnd exMap (fun m =>
     errIs .index (apiUpdateRanges m "replace" [(5, 3), (20, 22)] (some (.num 7 0)) true) &&
     okAnd (apiUpdateRanges m "replace" [(5, 3), (20, 22)] (some (.num 7 0)) false) fun m₂ =>
       m₂.abs 20 == .num 7 0) = true := by
   decide +kernel
 
-/-- **counterexamples to (1) without `SomePixel`**: only empty rows.  The expansion path
-    returns at its empty-input test; the slice path still validates: a repeated empty row with
-    `replace` (raw-array uniqueness), a value of the wrong type -/
+/-- **counterexamples to (1) without `SomePixel`** (the remaining asymmetry of the model): only
+    empty rows.  The expansion path returns at its empty-input test on the EXPANDED pixel list;
+    the slice path still validates: a repeated empty row with `replace` (raw-array uniqueness),
+    a value of the wrong type -/
 example : okAnd exMap (fun m =>
     errIs .value (apiUpdateRanges m "replace" [(3, 3), (3, 3)] (some (.num 7 0)) true) &&
     !isErr (apiUpdateRanges m "replace" [(3, 3), (3, 3)] (some (.num 7 0)) false) &&
     errIs .value (apiUpdateRanges m "replace" [(3, 3)] (some (.bool true)) true) &&
     !isErr (apiUpdateRanges m "replace" [(3, 3)] (some (.bool true)) false)) = true := by
+  decide +kernel
+
+/-- **counterexample to (1) without `EmptyInside`** (model level): an empty row beyond the
+    sphere, `[50, 50)` with 48 pixels: the slice path drops it and succeeds, the expansion path
+    tests every row's end and raises IndexError -/
+example : okAnd exMap (fun m =>
+    !decide (EmptyInside m [(50, 50), (0, 2)]) &&
+    !isErr (apiUpdateRanges m "replace" [(50, 50), (0, 2)] (some (.num 7 0)) true) &&
+    errIs .index (apiUpdateRanges m "replace" [(50, 50), (0, 2)] (some (.num 7 0)) false)) = true := by
   decide +kernel
 
 /-- a record map with one valid pixel and the view of its primary field -/
@@ -626,26 +682,28 @@ def exViewMap : Except Err MapObj := do
   let p ← apiUpdate p "replace" [0] (some [.recd [(3, 0), (1, 1)]]) false
   materializeView p "p" 0 p.sent none
 
-/-- **counterexample to (1) without `ViewOk`**: through a record-field view the expansion
-    path refuses to make pixel 1 valid (RuntimeError); the slice path does it -/
+/-- **regression (views)**: through a record-field view BOTH calls refuse to make pixel 1 valid
+    (RuntimeError; the range routine used to bypass the guard), and both rewrite the valid
+    pixel 0 alike -/
 example : okAnd exViewMap (fun v =>
-    decide v.WF && v.view.isSome && !decide (ViewOk v [(0, 2)]) &&
+    decide v.WF && v.view.isSome &&
     errIs .runtime (apiUpdateRanges v "replace" [(0, 2)] (some (.num 7 0)) false) &&
-    okAnd (apiUpdateRanges v "replace" [(0, 2)] (some (.num 7 0)) true) fun v₁ =>
-      v₁.abs 1 == .num 7 0 && v.abs 1 == v.sent) = true := by
+    errIs .runtime (apiUpdateRanges v "replace" [(0, 2)] (some (.num 7 0)) true) &&
+    okAnd (apiUpdateRanges v "replace" [(0, 1)] (some (.num 7 0)) true) fun v₁ =>
+    okAnd (apiUpdateRanges v "replace" [(0, 1)] (some (.num 7 0)) false) fun v₂ =>
+      decide (SameState v.c v.vc v₁.st v₂.st) && v₁.abs 0 == .num 7 0 && v₁.abs 1 == v.sent) = true := by
   decide +kernel
 
 /-- an int64 map with sentinel 5 -/
 def exMap5 : Except Err MapObj := apiMakeEmpty 0 1 (.plain (.int 64 true)) (some (.num 5 0)) []
 
-/-- **counterexample to (2) without `PreOnce`**: `add` of 5 over a map with sentinel 5, the
-    row `[0, 1)` given twice.  Expansion path: pre-pass 5 ↦ 0, then +5 +5 = 10.  Slice path:
-    row one gives 0 + 5 = 5 — the sentinel — which row two resets to 0 again: 5 (unset). -/
+/-- **regression (repeated pixels under `add` over a non-zero sentinel)**: `add` of 5 over a
+    map with sentinel 5, the row `[0, 1)` given twice.  Both paths: reset 5 ↦ 0 once, then
+    +5 +5 = 10 (the range routine used to reset per row: 0 + 5 = 5 = sentinel ↦ 0 + 5 = 5). -/
 example : okAnd exMap5 (fun m =>
-    !decide (PreOnce m "add" [(0, 1), (0, 1)]) &&
     okAnd (apiUpdateRanges m "add" [(0, 1), (0, 1)] (some (.num 5 0)) true) fun m₁ =>
     okAnd (apiUpdateRanges m "add" [(0, 1), (0, 1)] (some (.num 5 0)) false) fun m₂ =>
-      m₁.abs 0 == .num 5 0 && m₂.abs 0 == .num 10 0) = true := by
+      decide (SameState m.c m.vc m₁.st m₂.st) && m₁.abs 0 == .num 10 0 && m₂.abs 0 == .num 10 0) = true := by
   decide +kernel
 
 /-- a float32 map with sentinel 2^24 and pixel 0 = 2^24 - 1 -/
@@ -653,12 +711,12 @@ def exMapF : Except Err MapObj := do
   let m ← apiMakeEmpty 0 1 (.plain (.flt 32)) (some (.num 16777216 0)) []
   apiUpdate m "replace" [0] (some [.num 16777215 0]) false
 
-/-- counterexample to (1) without `PreOnce` on a float map (model level: `inexact` marks a sum
-    float32 would round): the same doubled row makes the expansion path reach 2^24 + 1
-    (`inexact`) while the slice path passes through the sentinel and ends at 1.  And the error
-    KIND for a row beyond the sphere: IndexError (slice) vs what pixel 0 raises (expansion). -/
+/-- float exactness (model level: `inexact` marks a sum float32 would round): the doubled row
+    now reaches 2^24 + 1 on BOTH paths (`inexact` on both — regression, the running sum used to
+    be reset at the sentinel on the slice path).  What remains is the error KIND for a row
+    beyond the sphere: IndexError (slice) vs `inexact` from pixel 0 (expansion). -/
 example : okAnd exMapF (fun m =>
-    !isErr (apiUpdateRanges m "add" [(0, 1), (0, 1)] (some (.num 1 0)) true) &&
+    errIs .inexact (apiUpdateRanges m "add" [(0, 1), (0, 1)] (some (.num 1 0)) true) &&
     errIs .inexact (apiUpdateRanges m "add" [(0, 1), (0, 1)] (some (.num 1 0)) false) &&
     errIs .index (apiUpdateRanges m "add" [(10, 49)] (some (.num 2 0)) true) &&
     errIs .inexact (apiUpdateRanges m "add" [(10, 49)] (some (.num 2 0)) false)) = true := by
@@ -675,8 +733,9 @@ def replay (lines : List String) : List String :=
   (lines.foldl (fun (wo : World × List String) l =>
     let r := step wo.1 l; (r.1, wo.2 ++ [r.2])) ({}, [])).2
 
-/-! the coverage difference, the start > end difference, the view difference and the
-    repeated-pre-pass difference as protocol histories (`covmask` / `get` observe them) -/
+/-! protocol histories: the block-edge coverage superset; the start > end difference (model
+    level); and the three regressions — a view refuses new pixels on both paths, repeated rows
+    under `add` over a non-zero sentinel agree, an empty row allocates nothing -/
 #guard replay ["cfg a kind=plain dtype=i8 covord=0 spord=1", "cfg b kind=plain dtype=i8 covord=0 spord=1",
     "updr a ranges=0:4 val=5 path=slice", "updr b ranges=0:4 val=5 path=expand", "covmask a", "covmask b"]
   == ["ok", "ok", "ok", "ok", "110000000000", "100000000000"]
@@ -688,16 +747,18 @@ def replay (lines : List String) : List String :=
     "updr v ranges=0:2 val=7 path=slice", "get m pix=0,1"]
   == ["ok", "ok", "ok", "err RuntimeError",
       "r3;1,r-9223372036854775808;-1637499999999999923489519697920",
-      "ok", "r7;1,r7;-1637499999999999923489519697920"]
+      "err RuntimeError", "r3;1,r-9223372036854775808;-1637499999999999923489519697920"]
 #guard replay ["cfg a kind=plain dtype=i8 covord=0 spord=1 sentinel=5", "cfg b kind=plain dtype=i8 covord=0 spord=1 sentinel=5",
     "updr a ranges=0:1,0:1 val=5 op=add path=slice", "updr b ranges=0:1,0:1 val=5 op=add path=expand",
     "get a pix=0", "get b pix=0"]
-  == ["ok", "ok", "ok", "ok", "5", "10"]
+  == ["ok", "ok", "ok", "ok", "10", "10"]
+#guard replay ["cfg a kind=plain dtype=i8 covord=0 spord=1", "cfg b kind=plain dtype=i8 covord=0 spord=1",
+    "updr a ranges=5:5,48:48 val=5 path=slice", "updr b ranges=5:5,48:48 val=5 path=expand", "covmask a", "covmask b"]
+  == ["ok", "ok", "ok", "ok", "000000000000", "000000000000"]
 
 /-! `upd_error_stores_nothing` is not vacuous: a rejected update in a reachable world -/
 #guard replay ["cfg a kind=plain dtype=i8 covord=0 spord=1", "upd a pix=3 val=4", "upd a pix=3,99 val=7",
     "get a pix=3"] == ["ok", "ok", "err IndexError", "4"]
-
 
 end C08
 end HS
